@@ -143,7 +143,7 @@ def check(ctx):
         # every binary32 pattern x every precision -1..12 goes through igris_f32toa; a native pre-filter (drv_float.cpp,
         # suspect32) selects what is logged: every call it suspects plus every 300007th call; TLC judges the logged calls
         sweep = []
-        for k in range(256):
+        for k in sorted(range(256), key=lambda k: (k % 16, k)):   # interleaved: every driver process gets small and large exponents
             sweep += ["R", "Sweep32 %s %d %d 300007" % (",".join(str(p) for p in range(-1, 13)), k << 24, (k + 1) << 24)]
         ts = ctx.drive(drv, sweep, "sweep32", timeout=3000, env={"VERIF_OP_TIMEOUT": "1800"}, par=16, lines_per_proc=1)
         calls = 0; suspects = 0
